@@ -141,27 +141,27 @@ macro_rules! loc_harness {
     };
 }
 
-// @verif name=loc_linear1_a3 props=C13 tier=quick features=location timeout=600 probe=0a,0d,0a,0300000000000000 fns="LinearLocator::new,LinearLocatorState::init,LinearLocator::locate,LinearLocator::locate_inner,LinearLocatorState::new_line_start,UniversalNewlineIterator::count"
+// @verif name=loc_linear1_a3 props=C13 tier=quick features=location timeout=900 probe=0a,0d,0a,0300000000000000 fns="LinearLocator::new,LinearLocatorState::init,LinearLocator::locate,LinearLocator::locate_inner,LinearLocatorState::new_line_start,UniversalNewlineIterator::count"
 //   bound="all texts of 3 ASCII bytes; one locate() from the initial state at every boundary offset not between CR and LF"
 //   stubs="memchr::memrchr2 -> reference loop;find_newline -> reference scan (decided separately under C15);core::str::slice_error_fail -> immediate panic;core::str::count::do_count_chars -> panic (unreachable below 32 bytes)"
 //   assume="dev profile: LinearLocator's own debug self-check against LineIndex is compiled in and checked too"
 loc_harness!(loc_linear1_a3, check_linear_one, 3, 6, [1, 1, 1]);
-// @verif name=loc_linear1_b11 props=C13 tier=quick features=location timeout=600 fns="LinearLocator::new,LinearLocatorState::init,LinearLocator::locate,LinearLocator::locate_inner,LinearLocatorState::new_line_start,UniversalNewlineIterator::count"
+// @verif name=loc_linear1_b11 props=C13 tier=quick features=location timeout=900 fns="LinearLocator::new,LinearLocatorState::init,LinearLocator::locate,LinearLocator::locate_inner,LinearLocatorState::new_line_start,UniversalNewlineIterator::count"
 //   bound="all texts <BOM><ASCII><ASCII>; one locate() at every offset after the BOM"
 //   stubs="memchr::memrchr2 -> reference loop;find_newline -> reference scan (decided separately under C15);core::str::slice_error_fail -> immediate panic;core::str::count::do_count_chars -> panic (unreachable below 32 bytes)"
 //   assume="dev profile: LinearLocator's own debug self-check against LineIndex is compiled in and checked too"
 loc_harness!(loc_linear1_b11, check_linear_one, 5, 8, [13, 1, 1]);
-// @verif name=loc_linear1_1e1 props=C13 tier=quick features=location timeout=600 fns="LinearLocator::new,LinearLocatorState::init,LinearLocator::locate,LinearLocator::locate_inner,LinearLocatorState::new_line_start,UniversalNewlineIterator::count"
+// @verif name=loc_linear1_1e1 props=C13 tier=quick features=location timeout=900 fns="LinearLocator::new,LinearLocatorState::init,LinearLocator::locate,LinearLocator::locate_inner,LinearLocatorState::new_line_start,UniversalNewlineIterator::count"
 //   bound="all texts <ASCII><U+00E9><ASCII>; one locate()"
 //   stubs="memchr::memrchr2 -> reference loop;find_newline -> reference scan (decided separately under C15);core::str::slice_error_fail -> immediate panic;core::str::count::do_count_chars -> panic (unreachable below 32 bytes)"
 //   assume="dev profile: LinearLocator's own debug self-check against LineIndex is compiled in and checked too"
 loc_harness!(loc_linear1_1e1, check_linear_one, 4, 7, [1, 12, 1]);
-// @verif name=loc_linear2_a3 props=C13 tier=quick features=location timeout=600 probe=0a,0d,0a,0000000000000000,0300000000000000 fns="LinearLocator::new,LinearLocatorState::init,LinearLocator::locate,LinearLocator::locate_inner,LinearLocatorState::new_line_start,UniversalNewlineIterator::count"
+// @verif name=loc_linear2_a3 props=C13 tier=quick features=location timeout=900 probe=0a,0d,0a,0000000000000000,0300000000000000 fns="LinearLocator::new,LinearLocatorState::init,LinearLocator::locate,LinearLocator::locate_inner,LinearLocatorState::new_line_start,UniversalNewlineIterator::count"
 //   bound="all texts of 3 ASCII bytes; every non-decreasing pair of offsets (second query from the state the first left)"
 //   stubs="memchr::memrchr2 -> reference loop;find_newline -> reference scan (decided separately under C15);core::str::slice_error_fail -> immediate panic;core::str::count::do_count_chars -> panic (unreachable below 32 bytes)"
 //   assume="dev profile: LinearLocator's own debug self-check against LineIndex is compiled in and checked too"
 loc_harness!(loc_linear2_a3, check_linear_two, 3, 6, [1, 1, 1]);
-// @verif name=loc_linear_only_a3 props=C13 tier=quick features=location timeout=600 fns="LinearLocator::locate_only,LinearLocator::locate,LinearLocator::locate_inner"
+// @verif name=loc_linear_only_a3 props=C13 tier=quick features=location timeout=900 fns="LinearLocator::locate_only,LinearLocator::locate,LinearLocator::locate_inner"
 //   bound="all texts of 3 ASCII bytes; a locate_only() look-ahead followed by a locate() at an earlier-or-equal offset"
 //   stubs="memchr::memrchr2 -> reference loop;find_newline -> reference scan (decided separately under C15);core::str::slice_error_fail -> immediate panic;core::str::count::do_count_chars -> panic (unreachable below 32 bytes)"
 loc_harness!(loc_linear_only_a3, check_linear_only, 3, 6, [1, 1, 1]);
